@@ -109,12 +109,35 @@ Proof.
   intros ev s l. induction l as [|x t IH]; intros H; [reflexivity|].
   rewrite go_list_cons, (H x (or_introl eq_refl)), IH; [reflexivity|]. intros y Hy. apply H. right; exact Hy.
 Qed.
-Lemma go_dict_id : forall (ev : evaluator) s l,
-  (forall k x, In (k, x) l -> ev s k = (s, Ok k) /\ ev s x = (s, Ok x)) -> go_dict ev s l = (s, Ok l).
+(* Python's dict discipline on a value: in every dict the keys are hashable and no key equals an earlier one
+   (what every dict OBJECT satisfies; the model's [VDict] is a list of items and does not enforce it) *)
+Fixpoint keys_fresh (seen : list (value * value)) (l : list (value * value)) : bool :=
+  match l with
+  | [] => true
+  | (k, x) :: t => py_hashable k && negb (existsb (fun jw => py_key_eqb k (fst jw)) seen) && keys_fresh (seen ++ [(k, x)]) t
+  end.
+Fixpoint py_dicts_ok (v : value) : bool :=
+  match v with
+  | VList l | VTuple l => forallb py_dicts_ok l
+  | VDict l => forallb (fun kv => py_dicts_ok (fst kv) && py_dicts_ok (snd kv)) l && keys_fresh [] l
+  | _ => true
+  end.
+Lemma vdict_set_fresh : forall k x y, existsb (fun jw => py_key_eqb k (fst jw)) y = false -> vdict_set k x y = y ++ [(k, x)].
 Proof.
-  intros ev s l. induction l as [|[k x] t IH]; intros H; [reflexivity|].
+  intros k x y. induction y as [|[j w] y IH]; intros H; [reflexivity|].
+  cbn [existsb fst] in H. apply orb_false_iff in H. destruct H as [H1 H2].
+  cbn [vdict_set]. rewrite H1, (IH H2). reflexivity.
+Qed.
+Lemma go_dict_id : forall (ev : evaluator) s l y,
+  (forall k x, In (k, x) l -> ev s k = (s, Ok k) /\ ev s x = (s, Ok x)) -> keys_fresh y l = true ->
+  go_dict ev s l y = (s, Ok (y ++ l)).
+Proof.
+  intros ev s l. induction l as [|[k x] t IH]; intros y H Hf; [rewrite app_nil_r; reflexivity|].
   destruct (H k x (or_introl eq_refl)) as [H1 H2].
-  rewrite go_dict_cons, H1, H2, IH; [reflexivity|]. intros k' x' Hy. apply H. right; exact Hy.
+  cbn [keys_fresh] in Hf. apply andb_true_iff in Hf. destruct Hf as [Hf Hf3].
+  apply andb_true_iff in Hf. destruct Hf as [Hf1 Hf2]. apply negb_true_iff in Hf2.
+  rewrite go_dict_cons, H2, H1, Hf1, (vdict_set_fresh _ _ _ Hf2), IH; [|intros k' x' Hy; apply H; right; exact Hy|exact Hf3].
+  rewrite <- app_assoc. reflexivity.
 Qed.
 Lemma go_kw_id : forall (ev : evaluator) s (l : pdict), (forall k x, In (k, x) l -> ev s x = (s, Ok x)) ->
   go_kw ev s l = (s, Ok l).
@@ -123,21 +146,69 @@ Proof.
   rewrite go_kw_cons, (H k x (or_introl eq_refl)), IH; [reflexivity|]. intros k' x' Hy. eapply H. right; exact Hy.
 Qed.
 
-Theorem eval_ref_free_at : forall n s v, ref_free_at n v = true -> eval n s v = (s, Ok v).
+Theorem eval_ref_free_at : forall n s v, ref_free_at n v = true -> py_dicts_ok v = true -> eval n s v = (s, Ok v).
 Proof.
-  induction n as [|n IH]; intros s v H; [discriminate|].
+  induction n as [|n IH]; intros s v H Hd; [discriminate|].
   destruct v; try discriminate; try reflexivity.
-  - cbn [ref_free_at] in H. rewrite forallb_forall in H.
-    rewrite eval_VList, go_list_id; [reflexivity|]. intros x Hx. apply IH, H, Hx.
-  - cbn [ref_free_at] in H. rewrite forallb_forall in H.
-    rewrite eval_VTuple, go_list_id; [reflexivity|]. intros x Hx. apply IH, H, Hx.
-  - cbn [ref_free_at] in H. rewrite forallb_forall in H.
-    rewrite eval_VDict, go_dict_id; [reflexivity|]. intros k x Hx. specialize (H _ Hx). cbn [fst snd] in H.
-    apply andb_true_iff in H. destruct H as [H1 H2]. split; apply IH; assumption.
+  - cbn [ref_free_at] in H. rewrite forallb_forall in H. cbn [py_dicts_ok] in Hd. rewrite forallb_forall in Hd.
+    rewrite eval_VList, go_list_id; [reflexivity|]. intros x Hx. apply IH; [apply H, Hx|apply Hd, Hx].
+  - cbn [ref_free_at] in H. rewrite forallb_forall in H. cbn [py_dicts_ok] in Hd. rewrite forallb_forall in Hd.
+    rewrite eval_VTuple, go_list_id; [reflexivity|]. intros x Hx. apply IH; [apply H, Hx|apply Hd, Hx].
+  - cbn [ref_free_at] in H. rewrite forallb_forall in H. cbn [py_dicts_ok] in Hd.
+    apply andb_true_iff in Hd. destruct Hd as [Hd Hf]. rewrite forallb_forall in Hd.
+    rewrite eval_VDict, go_dict_id; [reflexivity| |exact Hf]. intros k x Hx. specialize (H _ Hx). specialize (Hd _ Hx).
+    cbn [fst snd] in H, Hd.
+    apply andb_true_iff in H. destruct H as [H1 H2]. apply andb_true_iff in Hd. destruct Hd as [D1 D2].
+    split; apply IH; assumption.
 Qed.
 
-Corollary eval_ref_free : forall n s v, ref_free v = true -> vdepth v < n -> eval n s v = (s, Ok v).
-Proof. intros n s v Hr Hd. apply eval_ref_free_at. apply ref_free_at_of_ref_free; assumption. Qed.
+Corollary eval_ref_free : forall n s v, ref_free v = true -> py_dicts_ok v = true -> vdepth v < n -> eval n s v = (s, Ok v).
+Proof. intros n s v Hr Hk Hd. apply eval_ref_free_at; [apply ref_free_at_of_ref_free; assumption|exact Hk]. Qed.
+
+(* without the dict discipline: evaluating a reference-free value runs nothing, so the state is the same whatever
+   comes out (equal keys merge; an unhashable key raises TypeError) *)
+Lemma go_list_state : forall (ev : evaluator) s l, (forall x, In x l -> exists r, ev s x = (s, r)) ->
+  exists r, go_list ev s l = (s, r).
+Proof.
+  intros ev s l. induction l as [|x t IH]; intros H; [eexists; reflexivity|].
+  destruct (H x (or_introl eq_refl)) as [rx Ex]. rewrite go_list_cons, Ex.
+  destruct rx as [x'|e]; [|eexists; reflexivity].
+  destruct IH as [rt Et]; [intros y Hy; apply H; right; exact Hy|]. rewrite Et.
+  destruct rt; eexists; reflexivity.
+Qed.
+Lemma go_dict_state : forall (ev : evaluator) s l y,
+  (forall k x, In (k, x) l -> (exists r, ev s k = (s, r)) /\ (exists r, ev s x = (s, r))) ->
+  exists r, go_dict ev s l y = (s, r).
+Proof.
+  intros ev s l. induction l as [|[k x] t IH]; intros y H; [eexists; reflexivity|].
+  destruct (H k x (or_introl eq_refl)) as [[rk Ek] [rx Ex]]. rewrite go_dict_cons, Ex.
+  destruct rx as [x'|e]; [|eexists; reflexivity]. rewrite Ek.
+  destruct rk as [k'|e]; [|eexists; reflexivity].
+  destruct (py_hashable k'); [|eexists; reflexivity].
+  apply IH. intros k2 x2 Hy. apply H. right; exact Hy.
+Qed.
+Lemma go_kw_state : forall (ev : evaluator) s (l : pdict), (forall k x, In (k, x) l -> exists r, ev s x = (s, r)) ->
+  exists r, go_kw ev s l = (s, r).
+Proof.
+  intros ev s l. induction l as [|[k x] t IH]; intros H; [eexists; reflexivity|].
+  destruct (H k x (or_introl eq_refl)) as [rx Ex]. rewrite go_kw_cons, Ex.
+  destruct rx as [x'|e]; [|eexists; reflexivity].
+  destruct IH as [rt Et]; [intros k' y Hy; eapply H; right; exact Hy|]. rewrite Et.
+  destruct rt; eexists; reflexivity.
+Qed.
+Theorem eval_ref_free_at_state : forall n s v, ref_free_at n v = true -> exists r, eval n s v = (s, r).
+Proof.
+  induction n as [|n IH]; intros s v H; [discriminate|].
+  destruct v; try discriminate; try (eexists; reflexivity).
+  - cbn [ref_free_at] in H. rewrite forallb_forall in H. rewrite eval_VList.
+    destruct (go_list_state (eval n) s l) as [r E]; [intros x Hx; apply IH, H, Hx|]. rewrite E. eexists; reflexivity.
+  - cbn [ref_free_at] in H. rewrite forallb_forall in H. rewrite eval_VTuple.
+    destruct (go_list_state (eval n) s l) as [r E]; [intros x Hx; apply IH, H, Hx|]. rewrite E. eexists; reflexivity.
+  - cbn [ref_free_at] in H. rewrite forallb_forall in H. rewrite eval_VDict.
+    destruct (go_dict_state (eval n) s l []) as [r E]; [|rewrite E; eexists; reflexivity].
+    intros k x Hx. specialize (H _ Hx). cbn [fst snd] in H. apply andb_true_iff in H. destruct H as [H1 H2].
+    split; apply IH; assumption.
+Qed.
 
 (* ================================================================== *)
 (* (A1) a call whose applicable bindings hold no reference writes       *)
@@ -145,7 +216,8 @@ Proof. intros n s v Hr Hd. apply eval_ref_free_at. apply ref_free_at_of_ref_free
 (* ================================================================== *)
 Lemma call_ref_free_unfold : forall f s sel args kwargs c, lookup_sel s sel = Some c ->
   existsb is_req (skipn (List.length (supplied_positional_names (c_sig c) args)) args) = false ->
-  (forall k v, In (k, v) (prep_bindings (config s) (current_scope s) c args kwargs) -> ref_free_at f v = true) ->
+  (forall k v, In (k, v) (prep_bindings (config s) (current_scope s) c args kwargs) ->
+               ref_free_at f v = true /\ py_dicts_ok v = true) ->
   call (S f) s sel args kwargs =
   call_tail f c sel (scope_str (current_scope s)) args kwargs
     (oper_update s (scope_str (current_scope s), sel)
@@ -153,7 +225,22 @@ Lemma call_ref_free_unfold : forall f s sel args kwargs c, lookup_sel s sel = So
     (Ok (prep_bindings (config s) (current_scope s) c args kwargs)).
 Proof.
   intros f s sel args kwargs c Hl Hreq Hrf. rewrite call_S, Hl, Hreq. cbv zeta.
-  rewrite go_kw_id; [reflexivity|]. intros k x Hx. apply eval_ref_free_at. eapply Hrf; exact Hx.
+  rewrite go_kw_id; [reflexivity|]. intros k x Hx. apply eval_ref_free_at; eapply Hrf; exact Hx.
+Qed.
+(* the same without the dict discipline: the wrapper's tail runs in the state right after the record was written *)
+Lemma call_ref_free_state : forall f s sel args kwargs c, lookup_sel s sel = Some c ->
+  existsb is_req (skipn (List.length (supplied_positional_names (c_sig c) args)) args) = false ->
+  (forall k v, In (k, v) (prep_bindings (config s) (current_scope s) c args kwargs) -> ref_free_at f v = true) ->
+  exists rk,
+  call (S f) s sel args kwargs =
+  call_tail f c sel (scope_str (current_scope s)) args kwargs
+    (oper_update s (scope_str (current_scope s), sel)
+       (prep_operative c args kwargs (prep_bindings (config s) (current_scope s) c args kwargs))) rk.
+Proof.
+  intros f s sel args kwargs c Hl Hreq Hrf. rewrite call_S, Hl, Hreq. cbv zeta.
+  match goal with |- context [go_kw ?ev ?s0 ?l] => destruct (go_kw_state ev s0 l) as [rk E] end.
+  - intros k x Hx. apply eval_ref_free_at_state. eapply Hrf; exact Hx.
+  - rewrite E. exists rk. reflexivity.
 Qed.
 
 Theorem C07_call_operative_exact : forall f s sel args kwargs s' r c, lookup_sel s sel = Some c ->
@@ -165,7 +252,8 @@ Theorem C07_call_operative_exact : forall f s sel args kwargs s' r c, lookup_sel
                    (prep_operative c args kwargs (prep_bindings (config s) (current_scope s) c args kwargs))).
 Proof.
   intros f s sel args kwargs s' r c Hl Hk Hreq Hrf H.
-  rewrite (call_ref_free_unfold f s sel args kwargs c Hl Hreq Hrf) in H. unfold call_tail in H.
+  destruct (call_ref_free_state f s sel args kwargs c Hl Hreq Hrf) as [rk E]. rewrite E in H. unfold call_tail in H.
+  destruct rk as [nk|e0]; [|inversion H; reflexivity].
   destruct (merge_call c args kwargs _) as [[new_args final_kwargs]|e]; [|inversion H; reflexivity].
   destruct (py_bind (c_sig c) new_args final_kwargs) as [env|]; [|inversion H; reflexivity].
   destruct (c_kind c); try contradiction.
@@ -207,16 +295,21 @@ Definition keys_list (ev : evaluator) (evk : keyer) :=
     | [] => []
     | x :: t => evk s x ++ (let '(s1, rx) := ev s x in match rx with Ok _ => go s1 t | Raise _ => [] end)
     end.
+(* one dict item: the value is evaluated before the key (y[deepcopy(key)] = deepcopy(value)); the loop stops at a
+   key that cannot be hashed *)
 Definition keys_dict (ev : evaluator) (evk : keyer) :=
   fix go (s : state) (l : list (value * value)) : list ckey :=
     match l with
     | [] => []
     | (k, x) :: t =>
-        evk s k ++ (let '(s0, rk) := ev s k in
-                    match rk with
+        evk s x ++ (let '(s0, rx) := ev s x in
+                    match rx with
                     | Raise _ => []
-                    | Ok _ => evk s0 x ++ (let '(s1, rx) := ev s0 x in
-                                           match rx with Ok _ => go s1 t | Raise _ => [] end)
+                    | Ok _ => evk s0 k ++ (let '(s1, rk) := ev s0 k in
+                                           match rk with
+                                           | Ok k' => if py_hashable k' then go s1 t else []
+                                           | Raise _ => []
+                                           end)
                     end)
     end.
 Definition keys_kw (ev : evaluator) (evk : keyer) :=
@@ -295,11 +388,14 @@ Lemma keys_list_cons : forall ev evk s x t, keys_list ev evk s (x :: t) =
   evk s x ++ (let '(s1, rx) := ev s x in match rx with Ok _ => keys_list ev evk s1 t | Raise _ => [] end).
 Proof. reflexivity. Qed.
 Lemma keys_dict_cons : forall ev evk s k x t, keys_dict ev evk s ((k, x) :: t) =
-  evk s k ++ (let '(s0, rk) := ev s k in
-              match rk with
+  evk s x ++ (let '(s0, rx) := ev s x in
+              match rx with
               | Raise _ => []
-              | Ok _ => evk s0 x ++ (let '(s1, rx) := ev s0 x in
-                                     match rx with Ok _ => keys_dict ev evk s1 t | Raise _ => [] end)
+              | Ok _ => evk s0 k ++ (let '(s1, rk) := ev s0 k in
+                                     match rk with
+                                     | Ok k' => if py_hashable k' then keys_dict ev evk s1 t else []
+                                     | Raise _ => []
+                                     end)
               end).
 Proof. reflexivity. Qed.
 Lemma keys_kw_cons : forall ev evk s k x t, keys_kw ev evk s ((k, x) :: t) =
@@ -393,18 +489,18 @@ Proof.
 Qed.
 
 Lemma keys_dict_tracks : forall ev evk, ev_tracks ev evk ->
-  forall l s s' r, go_dict ev s l = (s', r) -> tracks s s' (keys_dict ev evk s l).
+  forall l s y s' r, go_dict ev s l y = (s', r) -> tracks s s' (keys_dict ev evk s l).
 Proof.
-  intros ev evk Hev l. induction l as [|[k x] t IH]; intros s s' r H.
+  intros ev evk Hev l. induction l as [|[k x] t IH]; intros s y s' r H.
   - simpl in H. inversion H; subst. apply tracks_refl.
   - rewrite go_dict_cons in H. rewrite keys_dict_cons.
-    destruct (ev s k) as [s0 rk] eqn:E0. pose proof (Hev _ _ _ _ E0) as F0.
-    destruct rk as [k'|e]; [|inversion H; subst; rewrite app_nil_r; exact F0].
-    destruct (ev s0 x) as [s1 rx] eqn:E1. pose proof (Hev _ _ _ _ E1) as F1.
-    destruct rx as [x'|e]; [|inversion H; subst; rewrite app_nil_r; eapply tracks_trans; eassumption].
-    destruct (go_dict ev s1 t) as [s2 rt] eqn:E2.
-    pose proof (IH _ _ _ E2) as F2.
-    destruct rt; inversion H; subst; (eapply tracks_trans; [exact F0|]; eapply tracks_trans; eassumption).
+    destruct (ev s x) as [s0 rx] eqn:E0. pose proof (Hev _ _ _ _ E0) as F0.
+    destruct rx as [x'|e]; [|inversion H; subst; rewrite app_nil_r; exact F0].
+    destruct (ev s0 k) as [s1 rk] eqn:E1. pose proof (Hev _ _ _ _ E1) as F1.
+    destruct rk as [k'|e]; [|inversion H; subst; rewrite app_nil_r; eapply tracks_trans; eassumption].
+    destruct (py_hashable k'); [|inversion H; subst; rewrite app_nil_r; eapply tracks_trans; eassumption].
+    pose proof (IH _ _ _ _ H) as F2.
+    eapply tracks_trans; [exact F0|]. eapply tracks_trans; eassumption.
 Qed.
 
 Lemma keys_kw_tracks : forall ev evk, ev_tracks ev evk ->
@@ -459,7 +555,7 @@ Proof.
         inversion H; subst. eapply keys_list_tracks; eassumption.
       * rewrite eval_VTuple in H. rewrite eval_keys_VTuple. destruct (go_list (eval f) s l) as [s1 r1] eqn:E.
         inversion H; subst. eapply keys_list_tracks; eassumption.
-      * rewrite eval_VDict in H. rewrite eval_keys_VDict. destruct (go_dict (eval f) s l) as [s1 r1] eqn:E.
+      * rewrite eval_VDict in H. rewrite eval_keys_VDict. destruct (go_dict (eval f) s l []) as [s1 r1] eqn:E.
         inversion H; subst. eapply keys_dict_tracks; eassumption.
       * destruct ev.
         -- rewrite eval_VRef_true in H. rewrite eval_keys_VRef_true. eapply IHh; eassumption.
@@ -543,26 +639,28 @@ Proof.
 Qed.
 (* with reference-free bindings and a non-singleton configurable nothing else is entered *)
 Lemma keys_list_nil : forall (ev : evaluator) (evk : keyer) s l,
-  (forall x, In x l -> ev s x = (s, Ok x) /\ evk s x = []) -> keys_list ev evk s l = [].
+  (forall x, In x l -> (exists r, ev s x = (s, r)) /\ evk s x = []) -> keys_list ev evk s l = [].
 Proof.
   intros ev evk s l. induction l as [|x t IH]; intros H; [reflexivity|].
-  destruct (H x (or_introl eq_refl)) as [H1 H2]. rewrite keys_list_cons, H1, H2. simpl.
-  apply IH. intros y Hy. apply H. right; exact Hy.
+  destruct (H x (or_introl eq_refl)) as [[r1 H1] H2]. rewrite keys_list_cons, H1, H2. simpl.
+  destruct r1; [|reflexivity]. apply IH. intros y Hy. apply H. right; exact Hy.
 Qed.
 Lemma keys_dict_nil : forall (ev : evaluator) (evk : keyer) s l,
-  (forall k x, In (k, x) l -> (ev s k = (s, Ok k) /\ evk s k = []) /\ (ev s x = (s, Ok x) /\ evk s x = [])) ->
+  (forall k x, In (k, x) l -> ((exists r, ev s k = (s, r)) /\ evk s k = []) /\ ((exists r, ev s x = (s, r)) /\ evk s x = [])) ->
   keys_dict ev evk s l = [].
 Proof.
   intros ev evk s l. induction l as [|[k x] t IH]; intros H; [reflexivity|].
-  destruct (H k x (or_introl eq_refl)) as [[H1 H2] [H3 H4]]. rewrite keys_dict_cons, H1, H2, H3, H4. simpl.
-  apply IH. intros k' y Hy. apply H. right; exact Hy.
+  destruct (H k x (or_introl eq_refl)) as [[[r1 H1] H2] [[r3 H3] H4]]. rewrite keys_dict_cons, H3, H4. simpl.
+  destruct r3; [|reflexivity]. rewrite H1, H2. simpl. destruct r1 as [k'|]; [|reflexivity].
+  destruct (py_hashable k'); [|reflexivity].
+  apply IH. intros k2 y Hy. apply H. right; exact Hy.
 Qed.
 Lemma keys_kw_nil : forall (ev : evaluator) (evk : keyer) s (l : pdict),
-  (forall k x, In (k, x) l -> ev s x = (s, Ok x) /\ evk s x = []) -> keys_kw ev evk s l = [].
+  (forall k x, In (k, x) l -> (exists r, ev s x = (s, r)) /\ evk s x = []) -> keys_kw ev evk s l = [].
 Proof.
   intros ev evk s l. induction l as [|[k x] t IH]; intros H; [reflexivity|].
-  destruct (H k x (or_introl eq_refl)) as [H1 H2]. rewrite keys_kw_cons, H1, H2. simpl.
-  apply IH. intros k' y Hy. eapply H. right; exact Hy.
+  destruct (H k x (or_introl eq_refl)) as [[r1 H1] H2]. rewrite keys_kw_cons, H1, H2. simpl.
+  destruct r1; [|reflexivity]. apply IH. intros k' y Hy. eapply H. right; exact Hy.
 Qed.
 
 Lemma eval_keys_ref_free_at : forall n s v, ref_free_at n v = true -> eval_keys n s v = [].
@@ -570,12 +668,12 @@ Proof.
   induction n as [|n IH]; intros s v H; [discriminate|].
   destruct v; try discriminate; try reflexivity.
   - cbn [ref_free_at] in H. rewrite forallb_forall in H. rewrite eval_keys_VList. apply keys_list_nil.
-    intros x Hx. split; [apply eval_ref_free_at|apply IH]; apply H, Hx.
+    intros x Hx. split; [apply eval_ref_free_at_state|apply IH]; apply H, Hx.
   - cbn [ref_free_at] in H. rewrite forallb_forall in H. rewrite eval_keys_VTuple. apply keys_list_nil.
-    intros x Hx. split; [apply eval_ref_free_at|apply IH]; apply H, Hx.
+    intros x Hx. split; [apply eval_ref_free_at_state|apply IH]; apply H, Hx.
   - cbn [ref_free_at] in H. rewrite forallb_forall in H. rewrite eval_keys_VDict. apply keys_dict_nil.
     intros k x Hx. specialize (H _ Hx). cbn [fst snd] in H. apply andb_true_iff in H. destruct H as [H1 H2].
-    split; (split; [apply eval_ref_free_at|apply IH]; assumption).
+    split; (split; [apply eval_ref_free_at_state|apply IH]; assumption).
 Qed.
 
 Theorem call_keys_ref_free : forall f s sel args kwargs c, lookup_sel s sel = Some c -> c_kind c <> KSingleton ->
@@ -584,9 +682,10 @@ Theorem call_keys_ref_free : forall f s sel args kwargs c, lookup_sel s sel = So
   call_keys (S f) s sel args kwargs = [(scope_str (current_scope s), sel)].
 Proof.
   intros f s sel args kwargs c Hl Hk Hreq Hrf. rewrite call_keys_S, Hl, Hreq. cbv zeta.
-  rewrite go_kw_id by (intros k x Hx; apply eval_ref_free_at; eapply Hrf; exact Hx).
-  rewrite keys_kw_nil by (intros k x Hx; split; [apply eval_ref_free_at|apply eval_keys_ref_free_at]; eapply Hrf; exact Hx).
-  unfold keys_tail.
+  rewrite keys_kw_nil by (intros k x Hx; split; [apply eval_ref_free_at_state|apply eval_keys_ref_free_at]; eapply Hrf; exact Hx).
+  match goal with |- context [go_kw ?ev ?s0 ?l] => destruct (go_kw_state ev s0 l) as [rk E] end.
+  { intros k x Hx. apply eval_ref_free_at_state. eapply Hrf; exact Hx. }
+  rewrite E. unfold keys_tail. destruct rk as [nk|e0]; [|reflexivity].
   destruct (merge_call c args kwargs _) as [[na fk]|e]; [|reflexivity].
   destruct (py_bind (c_sig c) na fk); [|reflexivity].
   destruct (c_kind c); try reflexivity. contradiction.
@@ -1174,8 +1273,10 @@ Theorem C07_replay_probe_call : forall f s1 s2 sel args kwargs c s1' v1,
   lookup_sel s1 sel = Some c -> lookup_sel s2 sel = Some c -> c_kind c = KProbe ->
   current_scope s2 = current_scope s1 ->
   existsb is_req (skipn (List.length (supplied_positional_names (c_sig c) args)) args) = false ->
-  (forall k v, In (k, v) (prep_bindings (config s1) (current_scope s1) c args kwargs) -> ref_free_at f v = true) ->
-  (forall k v, In (k, v) (prep_bindings (config s2) (current_scope s1) c args kwargs) -> ref_free_at f v = true) ->
+  (forall k v, In (k, v) (prep_bindings (config s1) (current_scope s1) c args kwargs) ->
+               ref_free_at f v = true /\ py_dicts_ok v = true) ->
+  (forall k v, In (k, v) (prep_bindings (config s2) (current_scope s1) c args kwargs) ->
+               ref_free_at f v = true /\ py_dicts_ok v = true) ->
   get_bindings_for (config s2) (current_scope s1) (c_sel c) true =
     prep_operative c args kwargs (prep_bindings (config s1) (current_scope s1) c args kwargs) ->
   call (S f) s1 sel args kwargs = (s1', Ok v1) ->
@@ -1242,6 +1343,7 @@ Proof. vm_compute. repeat split; reflexivity. Qed.
 
 Print Assumptions eval_ref_free_at.
 Print Assumptions eval_ref_free.
+Print Assumptions eval_ref_free_at_state.
 Print Assumptions C07_call_operative_exact.
 Print Assumptions C07_call_operative_exact_section.
 Print Assumptions C07_changed_section_was_entered.
